@@ -136,6 +136,9 @@ def run(tier, seed):
     if not scripts or not cases:
         raise vlib.ToolError("TLC produced no scripts / cases")
     nscripts_mc, ncases_mc = len(scripts), len(cases)
+    # TLC's workers print in a nondeterministic order; the run number seeds the values, so fix the order
+    scripts.sort(key=lambda x: json.dumps(x, sort_keys=True))
+    cases.sort(key=lambda x: json.dumps(x, sort_keys=True))
     cap = 40000 if thorough else 10000
     if len(scripts) > cap:
         scripts = rng.sample(scripts, cap)
